@@ -29,7 +29,10 @@ SP = rawapi.SMARTPTR
 BOUNDED = 'bounded: bounded/hashes.py'
 # contract options every proof of this area runs under (vf/pyvc/models.py, opt-in):
 #   ssize_len: len() of an existing Python object is <= sys.maxsize, so c_size_t(len(x)) == len(x)
-OPTS = {'ssize_len': True}
+#   feas_ms:   budget of one path-pruning query (vf/pyvc/interp.py); a time-out keeps the path, so this only trades exploration
+#              time against a few more (trivially discharged) obligations.  Satisfiability of pcs with uninterpreted hash values
+#              over sequences takes z3 0.5..1 s, more than the default budget of 400 ms, so waiting for it is wasted time.
+OPTS = {'ssize_len': True, 'feas_ms': 150}
 
 STATE_FIELDS = {'g_data': 'bytes', 'g_key': 'bytes', 'g_key2': 'bytes', 'g_p1': 'int', 'g_p2': 'int', 'g_sq': 'bool',
                 'g_pad': 'int', 'g_out': 'nat'}
